@@ -268,6 +268,9 @@ private:
         // we have to swap bits
         Byte_Manipulator byte_manipulator;
 
+        // the colours of one row, handed to the conversion policy like the rows of true colour images
+        std::vector< rgba8_pixel_t > colors( this->_settings._dim.x );
+
         for( std::ptrdiff_t y = 0
            ; y < this->_settings._dim.y
            ; ++y
@@ -281,7 +284,7 @@ private:
 
             byte_manipulator( rh.buffer() );
 
-            typename View_Dst::x_iterator dst_it = view.row_begin( y );
+            std::vector< rgba8_pixel_t >::iterator dst_it = colors.begin();
 
             it_t it  = rh.begin() + this->_settings._top_left.x;
             it_t end = it + this->_settings._dim.x;
@@ -291,7 +294,31 @@ private:
                 unsigned char c = get_color( *it, gray_color_t() );
                 *dst_it = palette_color( c );
             }
+
+            copy_palette_row( colors.begin(), colors.end(), view.row_begin( y ));
         }
+    }
+
+    // Delivers a row of palette colours to the destination. Without conversion the destination is, by is_allowed(),
+    // an rgba8 or rgb8 view and takes the colours by assignment; a converting read applies its color converter.
+    template< typename It, typename Out >
+    void copy_palette_row( It beg, It end, Out out )
+    {
+        copy_palette_row( beg, end, out
+                        , typename std::is_same< ConversionPolicy, detail::read_and_no_convert >::type()
+                        );
+    }
+
+    template< typename It, typename Out >
+    void copy_palette_row( It beg, It end, Out out, std::true_type ) // read_and_no_convert
+    {
+        std::copy( beg, end, out );
+    }
+
+    template< typename It, typename Out >
+    void copy_palette_row( It beg, It end, Out out, std::false_type ) // read_and_convert
+    {
+        this->_cc_policy.read( beg, end, out );
     }
 
     // the colour of a palette index read from the file, which may not be trusted
@@ -441,17 +468,15 @@ private:
                            , std::ptrdiff_t y
                            )
     {
+        // buf holds one whole row of the image, y is the row's position in the image
         if(  y >= this->_settings._top_left.y
-          && y <  this->_settings._dim.y
+          && y <  this->_settings._top_left.y + this->_settings._dim.y
           )
         {
             typename Buffer::const_iterator beg = buf.begin() + this->_settings._top_left.x;
             typename Buffer::const_iterator end = beg + this->_settings._dim.x;
 
-            std::copy( beg
-                     , end
-                     , view.row_begin( y )
-                     );
+            copy_palette_row( beg, end, view.row_begin( y - this->_settings._top_left.y ));
         }
     }
 
@@ -471,7 +496,7 @@ private:
         std::size_t stream_pos = this->_info._offset;
 
         using Buf_type = std::vector<rgba8_pixel_t>;
-        Buf_type buf( this->_settings._dim.x );
+        Buf_type buf( this->_info._width ); // the runs address pixels of the whole row, whatever part of it is requested
         Buf_type::iterator dst_it  = buf.begin();
         Buf_type::iterator dst_end = buf.end();
 
@@ -482,12 +507,13 @@ private:
         // The origin of a top-down DIB is also the bottom left corner of the bitmap image,
         // but in this case the bottom left corner is the first pixel of the last row of bitmap data.
         // - "Programming Windows", 5th Ed. by Charles Petzold explains Windows docs ambiguities.
+        std::ptrdiff_t const height = this->_info._height > 0 ? this->_info._height : -this->_info._height;
         std::ptrdiff_t ybeg = 0;
-        std::ptrdiff_t yend = this->_settings._dim.y;
+        std::ptrdiff_t yend = height;
         std::ptrdiff_t yinc = 1;
         if( this->_info._height > 0 )
         {
-            ybeg = this->_settings._dim.y - 1;
+            ybeg = height - 1;
             yend = -1;
             yinc = -1;
         }
